@@ -275,7 +275,6 @@ func (i *interpreter) symConv(tDst, tSrc types.Type, x *Term) value {
 	panic(fmt.Sprintf("symConv: unsupported %v -> %v", tSrc, tDst))
 }
 
-
 // symRuneToString implements string(r) for a symbolic integer: UTF-8 encoding, forking on the
 // encoding length; invalid code points (surrogates, > 0x10FFFF, negative) become "\uFFFD".
 func (i *interpreter) symRuneToString(x *Term, signed bool) value {
